@@ -867,6 +867,7 @@ def c20_special(pid, prop, tier, seed, b):
     # implementation: one go test run over all cases
     work = tempfile.mkdtemp(prefix='verif.c20.', dir='/var/tmp')
     problems = []
+    stress_fail = wrap_fail = None
     try:
         fin, fout = work + '/in.txt', work + '/out.txt'
         open(fin, 'w').write('\n'.join(c['raw'] for c in cases) + '\n')
@@ -884,6 +885,10 @@ def c20_special(pid, prop, tier, seed, b):
             if rc2 != 0:
                 stress_fail = out2[-1500:]
                 break
+        # the exported wrappers on unknown / released / live handles
+        rc3, out3 = infra.sh('cd %s && go test -tags verif -vet=off -count=1 -run TestVerifWrappers ./exp/cpp/export' % REPO,
+                             env=dict(GOENV, VERIF_C20_WRAP='1'), timeout=900)
+        wrap_fail = out3[-1500:] if rc3 != 0 else None
     finally:
         shutil.rmtree(work, ignore_errors=True)
     model = infra.run_driver(V + '/bin/mldriver', [c['line'] for c in cases])
@@ -922,6 +927,13 @@ def c20_special(pid, prop, tier, seed, b):
         cases.append(c)
         impl_lines.append('FAIL')
         failures.append((c, ['stress under the race detector failed: ' + stress_fail[-400:]]))
+    c = dict(line='c20-wrappers', text='every exported wrapper on unknown, released and live handles (defaults, no-ops, library answers, counts restored)',
+             shape='wrappers', meta={}, nontrivial=True, args=[], op='wrappers', impl=(wrap_fail or 'ok')[-600:])
+    cases.append(c)
+    impl_lines.append('FAIL' if wrap_fail else 'OK')
+    if wrap_fail:
+        m_ = re.search(r'verif_driver_test\.go:\d+: ([^\n]*)', wrap_fail)
+        failures.append((c, ['exported wrappers: ' + (m_.group(1) if m_ else wrap_fail[-300:])[:500]]))
     return cases, impl_lines, failures, disagreements, dict(problems=problems, states=len(cases), transitions=sum(len(c['raw'].split(' ')[2].split(',')) for c in cases if 'raw' in c),
                                                              traces_validated_against_impl=len(cases))
 
